@@ -140,7 +140,8 @@ def run(chk):
         rng = chk.rng
         burst = rng.choice([1, 2])
         pa, pb = rng.choice([(1, 2), (6, 12), (3, 9), (0, 4)])
-        hol.append("ratelayer %s 1500 %d %s" % ("block" if i % 2 == 0 else "block+same", burst, " ".join(["%d@0" % pa] * (burst + 2) + ["%d@60" % pb] * burst)))
+        # (the first peer's requests carry a 50 ms timeout header of their own: a deadline on a request is no licence to pass)
+        hol.append("ratelayer %s 1500 %d %s" % ("block" if i % 2 == 0 else "block+same", burst, " ".join(["%d@0@-@t50" % pa] * (burst + 2) + ["%d@60" % pb] * burst)))
     for c, a in zip(hol, run_impl("layers", hol, shards=len(hol))):
         chk.evaluations += 1
         chk.nontriv(c)
@@ -151,6 +152,11 @@ def run(chk):
         t = c.split()
         burst, pb = int(t[3]), t[-1].split("@")[0]
         res = [x.split(":") for x in a.split(" | ")[0].split()]
+        inv = [x.split("@") for x in a.split(" | ")[1].split()] if " | " in a else []
+        pa_ = t[4].split("@")[0]
+        early = [int(x[1]) for x in inv if x[0] == pa_ and int(x[1]) < 1_000_000_000]
+        if len(early) > burst + 1:
+            chk.monitor_fail("Block mode: %d requests of peer %s reached the service within the first second (burst %d, period 1.5 s): over-quota requests were let through" % (len(early), pa_, burst), dict(case=c, impl=a[:400]))
         late = [r for r in res if r[0] == pb and (r[1] != "ok" or int(r[3]) - int(r[2]) > 700_000_000)]
         if late:
             chk.monitor_fail("Block mode: peer %s's first %d request(s), well within its own quota, waited %s ms while another peer's request was parked on that peer's quota" % (pb, burst, [(int(r[3]) - int(r[2])) // 1000000 if r[1] == "ok" else r[1] for r in late]), dict(case=c, impl=a[:400]))
